@@ -20,6 +20,8 @@ REWRITES = [
     Rewrite('R-vis', r'(?m)^(\s+)(\w+): ', r'\1pub \2: ', only=('TreeBuilder',)),
     Rewrite('R-vis', r'\bpub\(crate\)\s+', 'pub '),
     Rewrite('R1-receiver', r'(fn \w+\(\s*)&self\b', r'\1&mut self', only=('TreeBuilder::process_token', 'TreeBuilder::set_quirks_mode')),
+    # R13: Option<StrTendril>::unwrap_or_default() is unwrap_or(StrTendril::new()) (Tendril's Default is new()); applied if present
+    Rewrite('R13-unwrap_or_default', r'\.unwrap_or_default\(\)', '.unwrap_or(StrTendril::new())'),
     Rewrite('R15-msg', r'\bCow::from\(', 'Cow::msg()', balanced=True),
     Rewrite('R15-msg', r"Cow<'static, str>", 'Cow'),
 ]
